@@ -16,6 +16,7 @@ A history is a list of operations (JSON-able lists), total on every state so tha
   ["ren", m, a, b]                     db.rename_frame(NAMES[a], NAMES[b])
   ["setid", m, p, id, ext]             db.frames[p].arbitration_id = ArbitrationId(id, ext)      (skipped when p is past the end)
   ["inpl", m, p, id]                   db.frames[p].arbitration_id.id = id                        (skipped when p is past the end)
+  ["sethdr", m, p, h]                  db.frames[p].header_id = h   (h an integer or null)        (skipped when p is past the end)
   ["chg", m, id, ext, new]             convert.py changeFrameId: f = db.frame_by_id(..); if f: f.arbitration_id.id = new
   ["ecu", m, e]                        db.add_ecu(Ecu(ECUS[e]))
   ["copy", s, d, id, ext]              canmatrix.copy.copy_frame(ArbitrationId(id, ext), mats[s], mats[d])
@@ -52,6 +53,11 @@ UNIVERSES = {
                  names=[0, 1, 2], pgns=[0, 0xFEF1, 0xEF00, 0xEF12, 0x1234], hdrs=[0x51, 0x52, 0x53]),
 }
 # matrices delivered by the file readers: the ARXML reader prefixes frame names
+# keys at the edge of their range, several of them falsy in Python: identifier 0 in both formats, the largest 11-bit and 29-bit
+# identifiers, header id 0, PGN 0 and the largest PGN; here the frame called NAMES[n] is created with header id hdr_of[n]
+UNIVERSES["edge"] = dict(keys=[(0, False), (0, True), (0x7FF, False), (0x1FFFFFFF, True), (0x100, False)], names=[0, 1, 2],
+                         pgns=[0, 0x3FFFF, 0xFEF1], hdrs=[0, 1, 0xFFFFFFFF], hdr_of=[0, 1, None])
+UNIVERSES["rand"]["hdrs"] = [0, 0x51, 0x52, 0x53]
 UNIVERSES["readers"] = dict(UNIVERSES["rand"], names=[0, 1, 2, "FRAME_FrA", "FRAME_FrB", "FRAME_FrC", "Ren1", "Ren2"], hdrs=[0x51])
 
 
@@ -222,9 +228,11 @@ class Runner:
                     if stop_at_failure:
                         raise Failure()
 
+        hdr_of = UNIVERSES[uni].get("hdr_of", HDRS)
+
         def mk_frame(i, e, n):
             return C.Frame(nm(n), arbitration_id=C.ArbitrationId(i, e), size=8,
-                           header_id=HDRS[n] if isinstance(n, int) else None, is_j1939=bool(e))
+                           header_id=hdr_of[n] if isinstance(n, int) else None, is_j1939=bool(e))
 
         def uid_of(f):
             return -1 if f is None else uid.get(id(f), -2)
@@ -291,7 +299,7 @@ class Runner:
                     raised = type(ex).__name__
                 mops.append([14, mi, op[2]])
             else:
-                carrying = [f for f in db.frames if f.header_id == op[2]]
+                carrying = [f for f in db.frames if f.header_id is not None and f.header_id == op[2]]
                 try:
                     r = db.frame_by_header_id(op[2])
                 except Exception as ex:  # noqa
@@ -403,6 +411,14 @@ class Runner:
                 f = db.frames[op[2]]
                 f.arbitration_id = C.ArbitrationId(op[3], bool(op[4]))
                 mops.append([8, mi, uid_of(f), op[3], int(bool(op[4]))])
+                exp.append([0])
+            elif kind == "sethdr":
+                if op[2] >= len(db.frames):
+                    skipped += 1
+                    return
+                f = db.frames[op[2]]
+                f.header_id = op[3]
+                mops.append([18, mi, uid_of(f), -1 if op[3] is None else op[3]])
                 exp.append([0])
             elif kind == "inpl":
                 if op[2] >= len(db.frames):
@@ -603,6 +619,8 @@ def children(cfg, prefix, nframes):
             out += [["setid", m, p, i, e] for p in range(nf) for i in idc for e in fm]
         if "inpl" in kinds:
             out += [["inpl", m, p, i] for p in range(nf) for i in idc]
+        if "sethdr" in kinds:
+            out += [["sethdr", m, p, h] for p in range(nf) for h in cfg["hdr_vals"]]
         if "chg" in kinds:
             for i in idc:
                 ni = ids[:max(len(used_ids), ids.index(i) + 1) + 1]
@@ -687,7 +705,8 @@ def random_history(runner, rng, every_step, readers=False):
     one ARXML/KCD file carrying equally named frames, or one DBC/DBF/SYM/JSON file); the operations edit ONE matrix
     at a time (rename, identifier changes, delete, add, append); copy/merge/add_ecu stay out because these frames have
     signals, transmitters and attribute definitions, whose copying is C12's subject.  Returns (ops, result)."""
-    uni = "readers" if readers else "rand"
+    uni = "edge" if readers == "edge" else "readers" if readers else "rand"
+    readers = readers is True
     U = UNIVERSES[uni]
     keys = U["keys"]
     ops = []
@@ -716,7 +735,7 @@ def random_history(runner, rng, every_step, readers=False):
     if every_step:
         ops.append(["obs"])
     std_ids = [k[0] for k in keys if not k[1]]
-    pool = [k for k in keys if k[0] in (0x100, 0x200, 0x18FEF100, 0x0CFEF133)]
+    pool = keys[:2] if uni == "edge" else [k for k in keys if k[0] in (0x100, 0x200, 0x18FEF100, 0x0CFEF133)]
     state = dict(left=30, pending=[])
 
     def pick_name(db, present):
@@ -740,6 +759,10 @@ def random_history(runner, rng, every_step, readers=False):
         nf = len(db.frames)
         pos = rng.randrange(nf) if nf and rng.random() < 0.95 else nf + rng.randrange(2)
         i, e = rng.choice(pool) if rng.random() < 0.6 else rng.choice(keys)
+        if rng.random() < (0.15 if uni == "edge" else 0.05):
+            if every_step or rng.random() < 0.2:
+                state["pending"].append(["obs"])
+            return ["sethdr", m, pos, rng.choice(U["hdrs"] + [None])]
         x = rng.random()
         if readers:
             # stretch the part of the scale that holds the operations used here
@@ -967,6 +990,22 @@ REGRESSIONS = [
 ]
 
 
+def edge_worlds():
+    """fixed histories over keys at the edge of their range (run with the universe "edge"): frames with identifier 0 in both
+    formats, the largest identifiers, header id 0; header ids cleared, set to 0 and moved between frames; everything looked up
+    after each step"""
+    return [
+        ("identifier 0 and header id 0", [["new"], ["add", 0, 0, False, 0], ["add", 0, 0, True, 1], ["add", 0, 0x7FF, False, 2], ["obs"],
+                                           ["sethdr", 0, 2, 0], ["obs"], ["sethdr", 0, 0, None], ["obs"], ["sethdr", 0, 0, 0xFFFFFFFF], ["obs"],
+                                           ["inpl", 0, 1, 0x1FFFFFFF], ["obs"], ["chg", 0, 0, False, 0x7FF], ["obs"], ["delp", 0, 0], ["obs"]]),
+        ("re-numbered to 0 during the history", [["new"], ["app", 0, 0x100, False, 2], ["app", 0, 0x100, True, 1], ["obs"], ["sethdr", 0, 0, 0],
+                                                  ["obs"], ["setid", 0, 0, 0, False], ["obs"], ["setid", 0, 1, 0, True], ["obs"],
+                                                  ["sethdr", 0, 1, 0], ["obs"], ["rem", 0, 0], ["obs"]]),
+        ("edge keys in two matrices", [["new"], ["new"], ["add", 0, 0, True, 0], ["copy", 0, 1, 0, True], ["obs"], ["sethdr", 1, 0, 1], ["obs"],
+                                       ["merge", 1, 0], ["obs"], ["setid", 0, 0, 0x1FFFFFFF, True], ["merge", 1, 0], ["obs"]]),
+    ]
+
+
 def reader_worlds():
     """fixed worlds out of every reader: the same frame on 2, 3 and 4 buses of one ARXML / KCD file, one matrix edited
     (rename, new identifier, identifier changed in place, delete, add), everything looked up everywhere after each step"""
@@ -999,7 +1038,8 @@ def run(chk):
                 "all lookups after every step in half of them, after 20% of the steps in the others. READERS: the same on worlds whose "
                 "matrices are what canmatrix.formats.loads returns for an ARXML/KCD file written from 2..4 buses carrying equally named frames, "
                 "or for a DBC/DBF/SYM/JSON file; one matrix is edited at a time, no Frame object may sit in two matrices, bystanders keep "
-                "their frame lists and their lookup answers. non-trivial = at least one edit before a lookup; distinct by operation list")
+                "their frame lists and their lookup answers. EDGE KEYS: fixed, exhaustive and random histories over identifier 0 in both "
+                "formats, the largest 11/29-bit identifiers, header ids 0/1/2^32-1/none incl. re-numbering (sethdr), PGN 0 and 0x3FFFF. non-trivial = at least one edit before a lookup; distinct by operation list")
     ok = chk.build_and_audit()
     runner = Runner()
     nproc = max(1, min(core.NPROC, int(os.environ.get("VERIF_C10_PROCS", "12"))))
@@ -1014,17 +1054,18 @@ def run(chk):
 
     # ---- corpus / regressions ----
     corpus = list(REGRESSIONS) + reader_worlds()
+    edge = edge_worlds()
     for p in sorted(glob.glob(os.path.join(core.VERIF, "corpus", "C10", "*.json"))):
         try:
             corpus.append((os.path.basename(p), json.load(open(p))["ops"]))
         except Exception as ex:  # noqa
             chk.notes.append("corpus file %s unreadable: %s" % (p, ex))
     reg_results = []
-    for name, ops in corpus:
-        uni = "readers" if any(o[0] == "load" for o in ops) else "rand"
+    for name, ops in corpus + edge:
+        uni = "edge" if (name, ops) in edge else "readers" if any(o[0] == "load" for o in ops) else "rand"
         res = runner.run(ops, uni)
         chk.case(("reg", json.dumps(ops)), True)
-        chk.count("regression")
+        chk.count("edge-fixed-world" if uni == "edge" else "regression")
         note(res, ops, uni)
         if not res["failures"]:
             reg_results.append((ops, res))
@@ -1047,6 +1088,11 @@ def run(chk):
         dict(name="2 matrices, add/append/delete/set id/in-place id/lookup/copy/merge, 2 ids x 2 formats x 1 name", nmat=2, uni="small",
              ids=IDS[:2], fmts=F2, names=[0], ops=["add", "app", "delp", "setid", "inpl", "lid", "copy", "merge"], length=4),
     ]
+    sweeps.append(
+        dict(name="1 matrix, keys at the edge of their range: identifiers 0 and 0x7FF x 2 formats, header ids 0/1/none (by name, and set "
+                  "afterwards), every operation but remove_frame/rename_frame/add_ecu plus header re-numbering (the first identifier a "
+                  "history uses is 0)", nmat=1, uni="edge", ids=[0, 0x7FF], fmts=F2, names=[0, 1, 2], ops=LEAN + ["sethdr"],
+             hdr_vals=[0, 1, None], length=4 if thorough else 3))
     if thorough:
         sweeps += [
             dict(name="1 matrix, every operation but remove_frame/rename_frame/add_ecu, 2 ids x 2 formats x 2 names", nmat=1, uni="small",
@@ -1104,15 +1150,16 @@ def run(chk):
         # ---- random histories ----
         nrand = 1600 if not thorough else 24000
         nread = 500 if not thorough else 6000
-        seeds = [chk.rng.randrange(1 << 60) for _ in range(nrand + nread)]
+        nedge = 400 if not thorough else 5000
+        seeds = [chk.rng.randrange(1 << 60) for _ in range(nrand + nread + nedge)]
         chunks = [(seeds[i:i + 50], (i // 50) % 2 == 0, ok, False) for i in range(0, nrand, 50)]
         chunks += [(seeds[i:i + 25], (i // 25) % 2 == 0, ok, True) for i in range(nrand, nrand + nread, 25)]
+        chunks += [(seeds[i:i + 50], (i // 50) % 2 == 0, ok, "edge") for i in range(nrand + nread, nrand + nread + nedge, 50)]
         results = pool.imap(worker_random, chunks, chunksize=1) if pool else map(worker_random, chunks)
         reader_stats = dict(load_failed=0, memo_after_load=0)
         for (_, _, _, readers), (slim, ties, ntie, rstat) in zip(chunks, results):
             tie_n += ntie
-            uni = "readers" if readers else "rand"
-            tag = "readers" if readers else "rand"
+            uni = tag = "edge" if readers == "edge" else "readers" if readers else "rand"
             for k in reader_stats:
                 reader_stats[k] += rstat[k]
             for ops, r in slim:
@@ -1157,13 +1204,17 @@ def run(chk):
             chk.notes.append("a failing history did not fail again when re-run alone: %s" % json.dumps(h))
             continue
         cls = res["failures"][0][0]
-        if seen.get(cls, 0) >= 6:
+        if seen.get((uni == "edge", cls), 0) >= 6:
             continue
-        seen[cls] = seen.get(cls, 0) + 1
+        seen[(uni == "edge", cls)] = seen.get((uni == "edge", cls), 0) + 1
         small = shrink(runner, h, uni, cls)
         r2 = runner.run(small, uni)
         f = r2["failures"][0] if r2["failures"] else res["failures"][0]
-        chk.violation(f[0], KEY_WHAT.get(f[0], f[0]), dict(universe=uni, ops=small, failing_step=f[1], failing_lookup=f[2],
+        key, what = f[0], KEY_WHAT.get(f[0], f[0])
+        if uni == "edge":
+            # probes with keys at the edge of their range have their own failure classes
+            key, what = "edge-key-" + key, "with keys at the edge of their range (identifier 0, header id 0, largest identifiers, PGN 0): " + what
+        chk.violation(key, what, dict(universe=uni, ops=small, failing_step=f[1], failing_lookup=f[2],
                                                           how_to_replay="harness/p_c10.py: Runner().run(ops, universe)"),
                       f[3] if f[3] else "None (no frame of the matrix carries the key)", f[4])
     chk.sample(dict(random_history=json.dumps(random_history(runner, __import__("random").Random(7), False)[:14]) + " ..."))
